@@ -129,6 +129,27 @@ func Names(s DirSpec) []string {
 	return out
 }
 
+// EntryCid mints a link target for an entry without storing anything. kind
+// selects the CID flavour, so that links of different byte lengths occur in
+// one directory: 0 CIDv1 raw sha2-256 (36 bytes), 1 CIDv0 (34), 2 CIDv1
+// dag-pb sha2-512 (68), 3 CIDv1 raw identity (variable).
+func EntryCid(name string, kind int) cid.Cid {
+	data := []byte("entry:" + name)
+	switch kind % 4 {
+	case 1:
+		h, _ := mh.Sum(data, mh.SHA2_256, -1)
+		return cid.NewCidV0(h)
+	case 2:
+		h, _ := mh.Sum(data, mh.SHA2_512, -1)
+		return cid.NewCidV1(cid.DagProtobuf, h)
+	case 3:
+		h, _ := mh.Sum(data, mh.IDENTITY, -1)
+		return cid.NewCidV1(cid.Raw, h)
+	}
+	h, _ := mh.Sum(data, mh.SHA2_256, -1)
+	return cid.NewCidV1(cid.Raw, h)
+}
+
 // EntryTarget stores the small raw block an entry named name points at.
 func EntryTarget(st *store.Store, name string) cid.Cid {
 	return putRaw(st, []byte("entry:"+name))
